@@ -24,6 +24,21 @@ if TYPE_CHECKING:
     from .providermdib import ProviderMdib
     from .statecontainers import AbstractStateProtocol
 
+def _private_copy(container):  # noqa: ANN001, ANN202
+    """Return a copy of container that shares no property value with it.
+
+    mk_copy only copies the first level: nested objects (e.g. MetricValue, lists) would be shared between the mdib and
+    the object that is handed out to the application or to the observers of the transaction result.
+    The references to the xml node and to the descriptor container are kept.
+    """
+    copied = container.mk_copy()
+    for prop_name, _ in container.sorted_container_properties():
+        value = container.get_actual_value(prop_name)
+        if value is not None:
+            setattr(copied, prop_name, copy.deepcopy(value))
+    return copied
+
+
 class _TransactionBase:
     def __init__(self,
                  device_mdib_container: ProviderMdib,
@@ -53,8 +68,8 @@ class _TransactionBase:
             if transaction_item.new is None:
                 continue  # state was deleted, there is nothing to add and nothing that could be reported
             # the mdib gets its own object; the one that was handed out to the application stays private
-            table.add_object_no_lock(transaction_item.new.mk_copy(copy_node=False))
-            updates_list.append(transaction_item.new.mk_copy(copy_node=False))
+            table.add_object_no_lock(_private_copy(transaction_item.new))
+            updates_list.append(_private_copy(transaction_item.new))
         return updates_list
 
     def get_state_transaction_item(self, handle: str) -> TransactionItem | None:
@@ -145,7 +160,7 @@ class DescriptorTransaction(_TransactionBase):
             msg = f'Descriptor {descriptor_handle} already in updated set!'
             raise ValueError(msg)
         orig_descriptor_container = self._mdib.descriptions.handle.get_one(descriptor_handle)
-        descriptor_container = orig_descriptor_container.mk_copy()
+        descriptor_container = _private_copy(orig_descriptor_container)
         descriptor_container.increment_descriptor_version()
         self.descriptor_updates[descriptor_handle] = TransactionItem(orig_descriptor_container, descriptor_container)
         return descriptor_container
@@ -171,7 +186,7 @@ class DescriptorTransaction(_TransactionBase):
             raise ValueError(msg)
 
         mdib_state = self._mdib.states.descriptor_handle.get_one(descriptor_handle, allow_none=False)
-        copied_state = mdib_state.mk_copy()
+        copied_state = _private_copy(mdib_state)
         copied_state.increment_state_version()
         updates_dict[descriptor_handle] = TransactionItem(mdib_state, copied_state)
         return copied_state
@@ -316,7 +331,7 @@ class DescriptorTransaction(_TransactionBase):
                     self._logger.debug(  # noqa: PLE1205
                         'transaction_manager: new descriptor Handle={}, DescriptorVersion={}',
                         new_descriptor.Handle, new_descriptor.DescriptorVersion)
-                    proc.descr_created.append(new_descriptor.mk_copy())
+                    proc.descr_created.append(_private_copy(new_descriptor))
                     self._mdib.descriptions.add_object_no_lock(new_descriptor)
                     # increment DescriptorVersion if a child descriptor is added or deleted.
                     if new_descriptor.parent_handle is not None \
@@ -341,11 +356,11 @@ class DescriptorTransaction(_TransactionBase):
                         self._increment_parent_descriptor_version(proc, orig_descriptor)
                 else:
                     # this is an update operation
-                    proc.descr_updated.append(new_descriptor)
+                    proc.descr_updated.append(_private_copy(new_descriptor))
                     self._logger.debug(  # noqa: PLE1205
                         'transaction_manager: update descriptor Handle={}, DescriptorVersion={}',
                         new_descriptor.Handle, new_descriptor.DescriptorVersion)
-                    orig_descriptor.update_from_other_container(new_descriptor)
+                    orig_descriptor.update_from_other_container(_private_copy(new_descriptor))
                     self._update_corresponding_state(orig_descriptor)
                     self._mdib.descriptions.update_object_no_lock(orig_descriptor)
             for updates_dict, dest_list in ((self.alert_state_updates, proc.alert_updates),
@@ -427,7 +442,7 @@ class DescriptorTransaction(_TransactionBase):
             descriptor_container.parent_handle, allow_none=True)
         if parent_descriptor_container is not None:
             parent_descriptor_container.increment_descriptor_version()
-            proc.descr_updated.append(parent_descriptor_container.mk_copy())
+            proc.descr_updated.append(_private_copy(parent_descriptor_container))
             self._update_corresponding_state(parent_descriptor_container)
 
     def _get_states_update(self, container: AbstractStateProtocol | AbstractDescriptorProtocol) -> dict:
@@ -482,7 +497,7 @@ class StateTransactionBase(_TransactionBase):
             msg = f'Wrong data type in transaction! {self.__class__.__name__}, {mdib_state}'
             raise ApiUsageError(msg)
 
-        copied_state = mdib_state.mk_copy()
+        copied_state = _private_copy(mdib_state)
         copied_state.increment_state_version()
         self._state_updates[descriptor_handle] = TransactionItem(mdib_state, copied_state)
         return copied_state
@@ -685,7 +700,7 @@ class ContextStateTransaction(_TransactionBase):
             raise ValueError(msg)
 
         mdib_state = self._mdib.context_states.handle.get_one(context_state_handle, allow_none=False)
-        copied_state = mdib_state.mk_copy()
+        copied_state = _private_copy(mdib_state)
         copied_state.increment_state_version()
         self._state_updates[context_state_handle] = TransactionItem(mdib_state, copied_state)
         return copied_state
